@@ -233,11 +233,13 @@ impl From<&FluentNumber> for PluralOperands {
             .expect("Failed to generate operands out of FluentNumber");
         if let Some(mfd) = input.options.minimum_fraction_digits {
             if mfd > operands.v {
-                operands.f = u32::try_from(mfd - operands.v)
-                    .ok()
-                    .and_then(|shift| 10_u64.checked_pow(shift))
-                    .and_then(|scale| operands.f.checked_mul(scale))
-                    .unwrap_or(u64::MAX);
+                if operands.f != 0 {
+                    operands.f = u32::try_from(mfd - operands.v)
+                        .ok()
+                        .and_then(|shift| 10_u64.checked_pow(shift))
+                        .and_then(|scale| operands.f.checked_mul(scale))
+                        .unwrap_or(u64::MAX);
+                }
                 operands.v = mfd;
             }
         }
